@@ -3,6 +3,7 @@ package netsim
 import (
 	"bytes"
 	"fmt"
+	"github.com/kardiachain/go-kardia/mainchain/genesis"
 	"io"
 	"math/big"
 	"os"
@@ -52,7 +53,8 @@ type CrashPlan struct {
 	// round's proposer (well-formed; the state machine rejects it - after it was logged)
 	Round2 bool // even heights need two rounds: the round-1 proposal and its parts are not forwarded (nil votes, timeouts
 	// and a second proposer in the WAL at the crash points)
-	Late bool // crash at the LAST instant with durable prefix p: just before unit p+1 is written (everything the
+	InitialHeight uint64 // the genesis file's initial height (0: the default, 1); Heights counts from there (absolute)
+	Late          bool   // crash at the LAST instant with durable prefix p: just before unit p+1 is written (everything the
 	// node did since unit p - handled and gossiped messages included - is lost with the unsynced buffers)
 }
 
@@ -113,7 +115,7 @@ func CrashCase(c *core.Case, plan CrashPlan, p int) {
 	}
 	root := ScratchDir()
 	defer os.RemoveAll(root)
-	net, err := NewNet(NetOpts{N: plan.N, Powers: powers, Root: root, Node: func(i int) NodeOpts {
+	net, err := NewNet(NetOpts{N: plan.N, Powers: powers, Root: root, Genesis: planGenesis(plan), Node: func(i int) NodeOpts {
 		if i == plan.Victim {
 			return NodeOpts{RecordDB: true, FileWAL: true, Cache: cacheFor(plan.Flush), WALHeadLimit: plan.Rotate, Sched: valChangeSched(plan), Config: planConfig(plan)}
 		}
@@ -625,7 +627,7 @@ func GoldenLen(plan CrashPlan) (total int, start int, err error) {
 	for i := range powers {
 		powers[i] = 20
 	}
-	net, err := NewNet(NetOpts{N: plan.N, Powers: powers, Node: func(i int) NodeOpts {
+	net, err := NewNet(NetOpts{N: plan.N, Powers: powers, Genesis: planGenesis(plan), Node: func(i int) NodeOpts {
 		if i == plan.Victim {
 			return NodeOpts{RecordDB: true, FileWAL: true, Cache: cacheFor(plan.Flush), WALHeadLimit: plan.Rotate, Sched: valChangeSched(plan), Config: planConfig(plan)}
 		}
@@ -935,4 +937,12 @@ func writeWALFiles(dir string, img []byte, files map[string][]byte) error {
 		}
 	}
 	return nil
+}
+
+// planGenesis: the plan's changes to the genesis file.
+func planGenesis(plan CrashPlan) func(*genesis.Genesis) {
+	if plan.InitialHeight <= 1 {
+		return nil
+	}
+	return func(g *genesis.Genesis) { g.InitialHeight = plan.InitialHeight }
 }
